@@ -8,6 +8,36 @@ VERIF = os.path.dirname(os.path.dirname(os.path.abspath(__file__)))
 
 # property -> (technique, level text, level note, design ref)
 CLAIMED = {
+    'C03': (
+        'TLC model checking of the connection-level model Conn.tla under a nondeterministic server/clients (MC_Conn.tla, invariants on collector/dispatch via MC_Conn_chclose_q/consumer) + TLC trace validation (ConnTrace.tla) of recorded multi-threaded sessions of the real client against the scripted broker',
+        'The operators that ConnTrace applies to every recorded step (Dispatch: collector states, addressee lookup, reply/consumer queues) are model-checked with content deliveries, consumers and channel closes. The code is bound by sessions with 1-3 channels, several consumers, return listeners and gets: bodies of 0..5000 bytes in random partitions, frames of different channels interleaved in seeded orders, byte-level read segmentations down to 1 byte with forced would-blocks, consumers drained late; TLC replays every broker frame through the model and compares every message the application received (addressee, order, body identity, properties, delivery tag, redelivered, exchange, routing key, message_count, reply code/text) and that replies are not delayed.',
+        'Trusted: TLC; the mock transport and scripted broker (frame log = what the server sent); hook placement (frame before dispatch, chanmsg after pull; one global mutex orders the trace); hang limit 5 s / 20 s. Scenario inputs are seeded-random (Python generators), not exhaustive; the exhaustive part is the model checking of the same operators. Bodies are identified by byte-equality lookup among the bodies sent.',
+        'DESIGN.md §4 C03'),
+    'C04': (
+        'TLC model checking of the connection-level model Conn.tla under a nondeterministic server/clients (MC_Conn.tla, invariant Pairing, bug switch misroute) + TLC trace validation (ConnTrace.tla) of recorded multi-threaded sessions of the real client against the scripted broker',
+        'TLC checks for 2 channels x 2 calls (thorough 3 channels) and every cross-channel answer order that a successful synchronous call holds the reply generated for that very call, and that a misrouting dispatch breaks it. The code is bound by sessions of 2-4 channels on separate threads with the broker withholding and releasing replies in seeded orders (all synchronous operations incl. get with content, nowait variants, channel open/close); TLC pairs every returned value (queue name, counts, consumer tag, message) with the reply the model routed to that handle, requires FrameUnexpected for a reply of the wrong type, and requires nowait calls to return without a reply.',
+        'Trusted: TLC; the mock transport and scripted broker (frame log = what the server sent); hook placement (frame before dispatch, chanmsg after pull; one global mutex orders the trace); hang limit 5 s / 20 s. Scenario inputs are seeded-random (Python generators), not exhaustive; the exhaustive part is the model checking of the same operators. ',
+        'DESIGN.md §4 C04'),
+    'C08': (
+        'TLC model checking of the connection-level model Conn.tla under a nondeterministic server/clients (MC_Conn.tla, NothingAfterClose, SealedShrinks, Released; bug switch writeafterseal) + TLC trace validation (ConnTrace.tla) of recorded multi-threaded sessions of the real client against the scripted broker',
+        "TLC checks on the model (2 channels, calls/publishes/consumers, client close and server close/channel close in every interleaving) that nothing is appended after the close point, every handle and consumer is released, and that a non-sealing buffer breaks it. The code is bound by ~500 (8000) sessions closed by either side in seeded states (consumers, calls in flight, queued and late publishes, stalled output, 4 codes x 4 texts, CloseOk with immediate EOF): TLC checks the last frame on the wire, that nothing follows it, every channel's next-call error, every consumer's terminal message and the result of Connection::close.",
+        'Trusted: TLC; the mock transport and scripted broker (frame log = what the server sent); hook placement (frame before dispatch, chanmsg after pull; one global mutex orders the trace); hang limit 5 s / 20 s. Scenario inputs are seeded-random (Python generators), not exhaustive; the exhaustive part is the model checking of the same operators. ',
+        'DESIGN.md §4 C08'),
+    'C09': (
+        'TLC model checking of the connection-level model Conn.tla under a nondeterministic server/clients (MC_Conn.tla, action property ChanCloseScoped, SlotsLive, NoStuckCaller; bug switch closeall) + TLC trace validation (ConnTrace.tla) of recorded multi-threaded sessions of the real client against the scripted broker',
+        'TLC checks that dispatching Channel.Close(n) leaves every other slot and handle untouched (and that a close-all dispatch breaks it). The code is bound by sessions with 2-3 channels in seeded states where the server closes one: TLC checks the error (variant, channel, code, text) on the in-flight or next call, stickiness, consumer terminal messages, exactly one Channel.CloseOk on the wire, undisturbed calls on the other channels, re-opening the same id.',
+        'Trusted: TLC; the mock transport and scripted broker (frame log = what the server sent); hook placement (frame before dispatch, chanmsg after pull; one global mutex orders the trace); hang limit 5 s / 20 s. Scenario inputs are seeded-random (Python generators), not exhaustive; the exhaustive part is the model checking of the same operators. ',
+        'DESIGN.md §4 C09'),
+    'C11': (
+        'TLC model checking of the connection-level model Conn.tla under a nondeterministic server/clients (MC_Conn.tla, invariant OneTerminal, bug switch noterminal) + TLC trace validation (ConnTrace.tla) of recorded multi-threaded sessions of the real client against the scripted broker',
+        "TLC checks on the model (consume, cancel, close, server deliver/cancel/channel close/connection close in every order) that every consumer queue is deliveries followed by exactly one terminal message that is last, present whenever the sender is gone. The code is bound by seeded consumer histories (deliveries racing a withheld CancelOk, double cancel, drop, server cancel with/without nowait, closes by either side) whose queues TLC compares item by item with the model's, including the terminal variant and payload, disconnection, and the number of Basic.Cancel frames; plus create-and-drop sessions where nobody else holds the receiver.",
+        'Trusted: TLC; the mock transport and scripted broker (frame log = what the server sent); hook placement (frame before dispatch, chanmsg after pull; one global mutex orders the trace); hang limit 5 s / 20 s. Scenario inputs are seeded-random (Python generators), not exhaustive; the exhaustive part is the model checking of the same operators. ',
+        'DESIGN.md §4 C11'),
+    'C13': (
+        'TLC model checking of the connection-level model Conn.tla under a nondeterministic server/clients (MC_Conn.tla, MC_Conn_listeners: Released, listener sender life cycle) + TLC trace validation (ConnTrace.tla) of recorded multi-threaded sessions of the real client against the scripted broker',
+        'The listener operators (registration through the channel FIFO, replacement drops the old sender, dropped receiver clears the handler) are model-checked with publishes, acks and blocked notices. The code is bound by seeded interleavings of registrations, replacements, receiver drops, publishes, acks/nacks (single/multiple), returns and blocked/unblocked notices; TLC compares every listener queue item by item (verbatim, ordered, complete, old listener disconnected) and checks the connection keeps working.',
+        'Trusted: TLC; the mock transport and scripted broker (frame log = what the server sent); hook placement (frame before dispatch, chanmsg after pull; one global mutex orders the trace); hang limit 5 s / 20 s. Scenario inputs are seeded-random (Python generators), not exhaustive; the exhaustive part is the model checking of the same operators. ',
+        'DESIGN.md §4 C13'),
     "C02": (
         "TLC model checking of Chunks.tla (chunk arithmetic, sending-loop model with bug switch) + TLC-generated "
         "boundary classes published through the real API + TLC trace validation of every client frame at the broker",
